@@ -1,7 +1,8 @@
 (* The concrete instances used by the executable model satisfy the hypotheses of the general theorems:
    the fixed-size chunker, the sorted listing function, Unix link-text normalisation. *)
 From RJ Require Import Base.Prelude Base.OrderedPlan Model.Settings Model.Core Model.Fs Model.Paths Model.Sync Model.SyncTop
-  Spec.PlanSpec Spec.Mirror Proofs.PlanCProofs Proofs.FsProofs Proofs.PathsProofs Proofs.MirrorProofs.
+  Spec.PlanSpec Spec.Mirror Proofs.PlanCProofs Proofs.FsProofs Proofs.PathsProofs Proofs.PathLemmas Proofs.ExecProofs Proofs.MirrorProofs
+  Proofs.QuietProofs Proofs.ConfinedMain.
 
 (* ---- chunker ---- *)
 Lemma chunk_fuel_ok fuel : forall n s, chunk_fuel fuel n s <> [] /\ concat (chunk_fuel fuel n s) = s.
@@ -112,6 +113,49 @@ Proof.
       * apply pick_in. exists n. auto.
 Qed.
 
+
+(* the sorted listing reports parents first *)
+Lemma before_levels (g : nat -> list path) : forall n s a b da db,
+  (forall d p, In p (g d) -> length p = d) ->
+  s <= da -> da < db -> db < s + n -> In a (g da) -> In b (g db) ->
+  before a b (flat_map g (seq s n)).
+Proof.
+  induction n as [|n IH]; intros s a b da db Hlen H1 H2 H3 Ha Hb; [lia|].
+  cbn [seq flat_map]. destruct (Nat.eq_dec da s) as [->|Hne].
+  - apply before_app_r; [exact Ha|]. apply in_flat_map. exists db. split; [apply in_seq; lia|exact Hb].
+  - apply before_app_rr. apply (IH (S s) a b da db); auto; lia.
+Qed.
+
+Theorem list_fs_parents_first f :
+  parents_first (lkeys (side_listing now_z normalize f (list_fs f))).
+Proof.
+  unfold Mirror.side_listing. destruct (fget f []) as [n|] eqn:Er; [|intros a b []].
+  cbn [lkeys map fst]. intros a b Ha Hb Hpre.
+  destruct Hb as [<-|Hb].
+  { (* b is the root: it has no strict prefix *)
+    apply strict_prefix_iff in Hpre as (k & Hk & _). cbn in Hk. lia. }
+  destruct Ha as [<-|Ha]; [apply before_here; exact Hb|].
+  apply before_skip.
+  destruct n; try contradiction.
+  assert (Hshape : list_fs f = match fget f [] with
+                               | Some NFolder => flat_map (fun d => pick (visible incl f) d f) (seq 1 (max_depth f))
+                               | _ => [] end) by reflexivity.
+  rewrite Hshape, Er in *. clear Hshape.
+  set (g := fun d => lkeys (pick (visible incl f) d f)).
+  assert (Hflat : forall ds, lkeys (flat_map (fun d => pick (visible incl f) d f) ds) = flat_map g ds).
+  { induction ds as [|d ds IH]; cbn [flat_map]; [reflexivity|]. unfold lkeys in *. rewrite map_app, IH. reflexivity. }
+  unfold lkeys in Ha, Hb. fold (lkeys (flat_map (fun d => pick (visible incl f) d f) (seq 1 (max_depth f)))) in Ha, Hb |- *.
+  rewrite Hflat in *.
+  assert (Hlen : forall d p, In p (g d) -> length p = d).
+  { intros d p Hp. unfold g in Hp. apply in_map_iff in Hp as ([q e] & <- & Hq). apply pick_in in Hq as (nn & _ & Hl & _). exact Hl. }
+  apply in_flat_map in Ha as (da & Hda & Ha). apply in_flat_map in Hb as (db & Hdb & Hb).
+  apply in_seq in Hda. apply in_seq in Hdb.
+  assert (length a < length b).
+  { apply strict_prefix_iff in Hpre as (k & Hk & ->). rewrite firstn_length. lia. }
+  rewrite (Hlen _ _ Ha), (Hlen _ _ Hb) in H.
+  apply (before_levels g (max_depth f) 1 a b da db); auto; lia.
+Qed.
+
 End ListFs.
 
 (* ---- the mirror theorem for the executable instance (Unix destination) ---- *)
@@ -133,4 +177,31 @@ Proof.
            (list_fs_valid now_far (excl_incl ex) normalize_unix S HuS HwS)
            (list_fs_valid now_far (excl_incl ex) normalize_unix D HuD HwD)
            HwS Hts (links_utf8_roundtrip S Hlk) eq_refl Hok Hsk Hrs Hdry Hnt Hfl).
+Qed.
+
+(* ---- the executable model never reaches outside the destination in a clean run, and then mirrors ---- *)
+Theorem run_top_confined cfg S D a ans bits ex ft :
+  unique_keys S -> wf_fs S -> unique_keys D -> wf_fs D ->
+  let r := run_top cfg S D a ans bits ex ft in
+  r_ok r = true -> r_skipped r = [] -> r_root_skipped r = false -> cf_dry cfg = false ->
+  no_through (d_events (r_dest r)).
+Proof.
+  intros HuS HwS HuD HwD. cbv zeta. unfold run_top. intros Hok Hsk Hrs Hdry.
+  exact (clean_run_confined now_far (excl_incl ex) normalize_unix (chunk_every 4096) (chunk_every_ok 4096)
+           cfg S (mkD D a 0 None []) ans bits _ _ ft
+           (list_fs_valid now_far (excl_incl ex) normalize_unix S HuS HwS)
+           (list_fs_valid now_far (excl_incl ex) normalize_unix D HuD HwD)
+           (list_fs_parents_first now_far (excl_incl ex) normalize_unix S)
+           (list_fs_parents_first now_far (excl_incl ex) normalize_unix D)
+           HwD eq_refl eq_refl Hok Hsk Hrs Hdry).
+Qed.
+
+Theorem run_top_mirror_unconditional cfg S D a ans bits ex ft :
+  unique_keys S -> wf_fs S -> unique_keys D -> wf_fs D -> src_times_set S -> links_utf8 S ->
+  let r := run_top cfg S D a ans bits ex ft in
+  r_ok r = true -> r_skipped r = [] -> r_root_skipped r = false -> cf_dry cfg = false -> cf_fl cfg = Unix ->
+  mirror now_far (excl_incl ex) normalize_unix (cf_diff cfg) Unix S D (d_fs (r_dest r)).
+Proof.
+  intros HuS HwS HuD HwD Hts Hlk. cbv zeta. intros Hok Hsk Hrs Hdry Hfl.
+  apply run_top_mirror; auto. apply run_top_confined; auto.
 Qed.
